@@ -46,12 +46,12 @@ type Entry struct {
 	Flags int      `json:"flags"` // as seen on the wire (decode) / extra flags to set (encode: only XTopDir is honoured)
 }
 
-func (e *Entry) Type() int32    { return e.Mode & SIFMT }
-func (e *Entry) IsDir() bool    { return e.Type() == SIFDIR }
-func (e *Entry) IsReg() bool    { return e.Type() == SIFREG }
-func (e *Entry) IsLink() bool   { return e.Type() == SIFLNK }
-func (e *Entry) IsDev() bool    { return e.Type() == SIFCHR || e.Type() == SIFBLK }
-func (e *Entry) IsSpec() bool   { return e.Type() == SIFIFO || e.Type() == SIFSOCK }
+func (e *Entry) Type() int32  { return e.Mode & SIFMT }
+func (e *Entry) IsDir() bool  { return e.Type() == SIFDIR }
+func (e *Entry) IsReg() bool  { return e.Type() == SIFREG }
+func (e *Entry) IsLink() bool { return e.Type() == SIFLNK }
+func (e *Entry) IsDev() bool  { return e.Type() == SIFCHR || e.Type() == SIFBLK }
+func (e *Entry) IsSpec() bool { return e.Type() == SIFIFO || e.Type() == SIFSOCK }
 func (e *Entry) HasRdev(o ListOpts) bool {
 	return (o.Devices && e.IsDev()) || (o.Specials && e.IsSpec())
 }
